@@ -35,7 +35,7 @@ theorem N2_DPK1_DF__DS_DEGL (hc : c * c = 2) (h2 : (2:K) ≠ 0)
   c23_unfold
   generalize_ne hd0 => e0 he0
   (try (repeat' apply And.intro))
-  all_goals (first | rfl | (field_simp <;> (try simp only [← he0]) <;> c23_field hc))
+  all_goals (first | rfl | (field_simp <;> (try simp only [← he0]) <;> c23_fieldc hc))
 
 /-- `ABAQUS ← DTAU_DF` (2D): along every variation `δF = L F` with symmetric `L` the converted operator, applied to the
 rate of its kinematic variable, gives the rate of the Jaumann rate of the Kirchhoff stress / J that reproduces the same Lie derivative of
@@ -46,7 +46,7 @@ theorem N2_ABAQUS__DTAU_DF (hc : c * c = 2) (h2 : (2:K) ≠ 0)
       = upper (lamTau (plane f0 f1 f2 f3 f4) (M3.ofMandel c [s 0, s 1, s 2, s 3]) (plane l0 l1 l2 l3 l3) (M3.ofMandel c (act (rowsOf D i4 i5) (M3.tens2 ((plane l0 l1 l2 l3 l3) * (plane f0 f1 f2 f3 f4)))))) := by
   have hc0 : c ≠ 0 := c_ne_zero hc h2
   obtain ⟨h1, h2'⟩ := plane_det_ne hJ
-  c23_rat0 hc
+  c23_rat0c hc
 
 /-- `DS_DF ← DS_DEGL` (2D): along every variation `δF = L F` the converted operator, applied to the
 rate of its kinematic variable, gives the rate of the second Piola–Kirchhoff stress that reproduces the same Lie derivative of
@@ -58,7 +58,7 @@ theorem N2_DS_DF__DS_DEGL (hc : c * c = 2) (h2 : (2:K) ≠ 0)
   have key : (act (Gen.N2_DS_DF__DS_DEGL_r c c3 fn D (tensv F0) (tensv (plane f0 f1 f2 f3 f4)) s) (M3.tens2 ((plane l0 l1 l2 l3 l4) * (plane f0 f1 f2 f3 f4))))
       = (act (rowsOf D i4 i4) (M3.mandel2 c (dE (plane f0 f1 f2 f3 f4) (plane l0 l1 l2 l3 l4)))) := by
     have hc0 : c ≠ 0 := c_ne_zero hc h2
-    c23_rat0 hc
+    c23_rat0c hc
   rw [key]
 
 /-- `DSIG_DF ← DTAU_DF` (2D): along every variation `δF = L F` the converted operator, applied to the
@@ -70,7 +70,7 @@ theorem N2_DSIG_DF__DTAU_DF (hc : c * c = 2) (h2 : (2:K) ≠ 0)
       = upper (lamTau (plane f0 f1 f2 f3 f4) (M3.ofMandel c [s 0, s 1, s 2, s 3]) (plane l0 l1 l2 l3 l4) (M3.ofMandel c (act (rowsOf D i4 i5) (M3.tens2 ((plane l0 l1 l2 l3 l4) * (plane f0 f1 f2 f3 f4)))))) := by
   have hc0 : c ≠ 0 := c_ne_zero hc h2
   obtain ⟨h1, h2'⟩ := plane_det_ne hJ
-  c23_rat0 hc
+  c23_rat0c hc
 
 /-- `SPATIAL_MODULI ← ABAQUS` (2D): along every variation `δF = L F` the converted operator, applied to the
 rate of its kinematic variable, gives the rate of the Lie derivative of the Kirchhoff stress that reproduces the same Lie derivative of
@@ -80,7 +80,7 @@ theorem N2_SPATIAL_MODULI__ABAQUS (hc : c * c = 2) (h2 : (2:K) ≠ 0)
     upper (lamSM (plane f0 f1 f2 f3 f4) (M3.ofMandel c [s 0, s 1, s 2, s 3]) (plane l0 l1 l2 l3 l4) (M3.ofMandel c (act (Gen.N2_SPATIAL_MODULI__ABAQUS_r c c3 fn D (tensv F0) (tensv (plane f0 f1 f2 f3 f4)) s) (M3.mandel2 c (symm (plane l0 l1 l2 l3 l4))))))
       = upper (lamAb (plane f0 f1 f2 f3 f4) (M3.ofMandel c [s 0, s 1, s 2, s 3]) (plane l0 l1 l2 l3 l4) (M3.ofMandel c (act (rowsOf D i4 i4) (M3.mandel2 c (symm (plane l0 l1 l2 l3 l4)))))) := by
   have hc0 : c ≠ 0 := c_ne_zero hc h2
-  c23_rat0 hc
+  c23_rat0c hc
 
 /-- `SPATIAL_MODULI ← C_TRUESDELL` (2D): along every variation `δF = L F` the converted operator, applied to the
 rate of its kinematic variable, gives the rate of the Lie derivative of the Kirchhoff stress that reproduces the same Lie derivative of
@@ -90,7 +90,7 @@ theorem N2_SPATIAL_MODULI__C_TRUESDELL (hc : c * c = 2) (h2 : (2:K) ≠ 0)
     upper (lamSM (plane f0 f1 f2 f3 f4) (M3.ofMandel c [s 0, s 1, s 2, s 3]) (plane l0 l1 l2 l3 l4) (M3.ofMandel c (act (Gen.N2_SPATIAL_MODULI__C_TRUESDELL_r c c3 fn D (tensv F0) (tensv (plane f0 f1 f2 f3 f4)) s) (M3.mandel2 c (symm (plane l0 l1 l2 l3 l4))))))
       = upper (lamTr (plane f0 f1 f2 f3 f4) (M3.ofMandel c [s 0, s 1, s 2, s 3]) (plane l0 l1 l2 l3 l4) (M3.ofMandel c (act (rowsOf D i4 i4) (M3.mandel2 c (symm (plane l0 l1 l2 l3 l4)))))) := by
   have hc0 : c ≠ 0 := c_ne_zero hc h2
-  c23_rat0 hc
+  c23_rat0c hc
 
 /-- `C_TAU_JAUMANN ← SPATIAL_MODULI` (2D): along every variation `δF = L F` the converted operator, applied to the
 rate of its kinematic variable, gives the rate of the Jaumann rate of the Kirchhoff stress that reproduces the same Lie derivative of
@@ -100,6 +100,6 @@ theorem N2_C_TAU_JAUMANN__SPATIAL_MODULI (hc : c * c = 2) (h2 : (2:K) ≠ 0)
     upper (lamJ (plane f0 f1 f2 f3 f4) (M3.ofMandel c [s 0, s 1, s 2, s 3]) (plane l0 l1 l2 l3 l4) (M3.ofMandel c (act (Gen.N2_C_TAU_JAUMANN__SPATIAL_MODULI_r c c3 fn D (tensv F0) (tensv (plane f0 f1 f2 f3 f4)) s) (M3.mandel2 c (symm (plane l0 l1 l2 l3 l4))))))
       = upper (lamSM (plane f0 f1 f2 f3 f4) (M3.ofMandel c [s 0, s 1, s 2, s 3]) (plane l0 l1 l2 l3 l4) (M3.ofMandel c (act (rowsOf D i4 i4) (M3.mandel2 c (symm (plane l0 l1 l2 l3 l4)))))) := by
   have hc0 : c ≠ 0 := c_ne_zero hc h2
-  c23_rat0 hc
+  c23_rat0c hc
 
 end TfelVerif.C23.PropsN2c
